@@ -166,6 +166,8 @@ pub fn variants_of(name: &str, ws: &Workspace, pkg: usize, file: usize, tier: Ti
         push(format!("remove item {i}"), format!("{}{}", &text[..s], &text[e..]), s);
     }
     push("empty file".into(), String::new(), 0);
+    // the file as some editors save it: with a byte order mark in front
+    push("byte order mark prepended".into(), format!("{}{text}", '\u{feff}'), 3);
     if chars {
         let bounds: Vec<usize> = (0..text.len()).filter(|&i| text.is_char_boundary(i)).collect();
         for &b in &bounds {
@@ -582,14 +584,21 @@ pub fn run(which: Which, tier: Tier) -> i32 {
     }
     let _ = std::fs::write(&skip_path, serde_json::to_string(&skipped).unwrap());
     std::env::set_var("GMC_SKIP_FILE", &skip_path);
+    let mut unexplained = 0;
     for _round in 0..12 {
         match supervise::supervise(which.name(), tier.name(), Duration::from_secs(300)) {
             Ok(c) => return c,
             Err(culprits) => {
                 if culprits.is_empty() {
-                    let mut rep = Report::new(which.name(), tier);
-                    rep.machinery("sweep process died but no journaled case reproduces the crash in isolation");
-                    return rep.finish();
+                    // nothing reproduces in isolation: the watchdog fired on a case that was only
+                    // slow because the machine was busy. Run the sweep again (twice at most).
+                    unexplained += 1;
+                    if unexplained > 2 {
+                        let mut rep = Report::new(which.name(), tier);
+                        rep.machinery("sweep process died three times but no journaled case reproduces the crash in isolation");
+                        return rep.finish();
+                    }
+                    continue;
                 }
                 for c in culprits {
                     skipped.push(json!({"desc": c.case["desc"], "how": c.how, "case": c.case}));
